@@ -634,10 +634,15 @@ impl Gen<'_> {
                 }
                 None => hyb(Hyb::Bind, v, None, un(Un::AX, un(Un::AX, var(v)))),
             },
-            8 => match self.rng.below(3) {
+            // near misses: another operator, or an extra (repeated) operator
+            8 => match self.rng.below(8) {
                 0 => hyb(Hyb::Bind, v, None, un(Un::AG, un(Un::AF, var(v)))),
                 1 => hyb(Hyb::Bind, v, None, un(Un::AG, var(v))),
-                _ => hyb(Hyb::Bind, v, None, un(Un::EF, var(v))),
+                2 => hyb(Hyb::Bind, v, None, un(Un::EF, var(v))),
+                3 | 4 => hyb(Hyb::Bind, v, None, un(Un::AX, un(Un::AX, var(v)))),
+                5 => hyb(Hyb::Bind, v, None, un(Un::AG, un(Un::AG, un(Un::EF, var(v))))),
+                6 => hyb(Hyb::Bind, v, None, un(Un::AG, un(Un::EF, un(Un::EF, var(v))))),
+                _ => hyb(Hyb::Bind, v, None, un(Un::AX, un(Un::Not, un(Un::Not, var(v))))),
             },
             _ => hyb(Hyb::Bind, v, None, un(Un::EX, var(v))),
         }
